@@ -117,6 +117,7 @@ type lexer struct {
 	mode   mode
 	last   token // The last emitted token
 	parens int   // Number of open parenthesis
+	width  int   // Number of bytes consumed by the last call to next
 }
 
 // nextToken returns the next token emitted by the lexer.
@@ -140,24 +141,29 @@ func (l *lexer) tokenize() {
 func newLexer(input io.Reader) *lexer {
 	// TODO: lexer should use the reader.
 	i, _ := ioutil.ReadAll(input)
-	return &lexer{0, 0, 1, 0, string(i), make(chan token), nil, modeNormal, token{}, 0}
+	return &lexer{0, 0, 1, 0, string(i), make(chan token), nil, modeNormal, token{}, 0, 0}
 }
 
 func (l *lexer) next() (val string) {
 	if l.pos >= len(l.input) {
+		// Nothing is consumed at the end of input, so backup must not move.
+		l.width = 0
 		val = delimEOF
 
 	} else {
 		val = l.input[l.pos : l.pos+1]
 
+		l.width = 1
 		l.pos++
 	}
 
 	return
 }
 
+// backup steps back over the value returned by the last call to next.
 func (l *lexer) backup() {
-	l.pos--
+	l.pos -= l.width
+	l.width = 0
 }
 
 func (l *lexer) peek() string {
@@ -345,7 +351,7 @@ func lexSpace(l *lexer) stateFn {
 func lexNumber(l *lexer) stateFn {
 	for {
 		str := l.next()
-		if !isNumeric(str) {
+		if str == delimEOF || !isNumeric(str) {
 			l.backup()
 			break
 		}
@@ -359,7 +365,7 @@ func lexNumber(l *lexer) stateFn {
 func lexPunctuation(l *lexer) stateFn {
 	for {
 		str := l.next()
-		if !isPunctuation(str) {
+		if str == delimEOF || !isPunctuation(str) {
 			l.backup()
 			break
 		}
@@ -484,9 +490,9 @@ func lexCommentOpen(l *lexer) stateFn {
 	}
 	l.pos += til
 	if string(l.input[l.pos-1]) == delimTrimWhitespace {
-		l.backup()
+		l.pos--
 		l.emit(tokenText)
-		l.next()
+		l.pos++
 	} else {
 		l.emit(tokenText)
 	}
